@@ -63,7 +63,7 @@ claim("C20", "Coq proof (canonicalize = stable sort of the extras under the labe
       COMMON_NOTE, "DESIGN.md 7 (C20), 8 (F3)")
 
 
-claim("C12", "Coq proof (a repeated label is never accepted by the three map decoders and is reported as DuplicateMapKey when the preceding entries are acceptable; header/key encoders never emit a repeated key; claims-set encoder refuted = known finding) + duplicate injection at every position pair / nesting position and encode-side oracle with an independent parser",
+claim("C12", "Coq proof (a repeated label is never accepted by the three map decoders and is reported as DuplicateMapKey when the preceding entries are acceptable; header/key encoders never emit a repeated key; claims-set encoder refuted = known finding; duplicate-key error masked for signatures nested in COSE_Sign = known finding, witness proved) + duplicate injection at every position pair, exact error kind at 37 nesting positions / nesting position and encode-side oracle with an independent parser",
       "Theorems: for header, COSE_Key and claims-set decoders, any map in which two keys normalise to the same label is never accepted, and yields DuplicateMapKey whenever the entries before the second occurrence are acceptable; header_to_value / CoseKey_to_value outputs have pairwise distinct keys (extras repeating a label or naming a populated typed field fail). ClaimsSet encoding has no duplicate check: proved witness, listed as known finding F2b (pinned upstream by test_cwt_dup_claim). Implementation is run on otherwise-valid maps with one duplicated, differently encoded key at every position and nesting position, and on in-memory values with clashing extras whose output maps are parsed independently.",
       COMMON_NOTE, "DESIGN.md 7 (C12), 8 (F2)")
 
